@@ -78,7 +78,7 @@ fn action() -> impl Strategy<Value = Action> {
         5 => Just(Action::Valid),
         1 => Just(Action::Touch),
         2 => (0u8..4).prop_map(Action::Broken),
-        2 => (0u8..4).prop_map(Action::Invalid),
+        3 => (0u8..8).prop_map(Action::Invalid),
         1 => Just(Action::Delete),
         1 => Just(Action::Rename),
     ]
@@ -113,8 +113,11 @@ struct DiskFile {
 }
 
 fn valid_zone_text(zone: &str, version: u32) -> String {
+    // every third version carries something zone validation only warns about (an MX whose in-zone
+    // exchanger has no address): such a zone is valid and must be loaded
+    let warned = if version % 3 == 0 { "@ IN MX 10 nomail\n" } else { "" };
     format!(
-        "$ORIGIN {zone}\n$TTL 60\n@ IN SOA ns hostmaster {version} 3600 600 86400 60\n@ IN NS ns\nns IN A 127.0.0.1\n@ IN TXT \"z={zone} v={version}\"\nwww IN TXT \"z={zone} v={version}\"\n"
+        "$ORIGIN {zone}\n$TTL 60\n@ IN SOA ns hostmaster {version} 3600 600 86400 60\n@ IN NS ns\nns IN A 127.0.0.1\n@ IN TXT \"z={zone} v={version}\"\nwww IN TXT \"z={zone} v={version}\"\n{warned}"
     )
 }
 
@@ -129,7 +132,18 @@ fn broken_zone_text(zone: &str, version: u32, variant: u8) -> String {
 }
 
 fn invalid_zone_text(zone: &str, version: u32, variant: u8) -> String {
-    match variant % 4 {
+    // 4-7: an error together with something validation only warns about (MX exchanger without an
+    // address, NS at a wildcard name); the TXT data carries the new version so that serving it shows
+    let base = |extra: &str| format!("$ORIGIN {zone}\n$TTL 60\n@ IN SOA ns hostmaster {version} 3600 600 86400 60\n@ IN TXT \"z={zone} v={version}\"\nwww IN TXT \"z={zone} v={version}\"\n{extra}");
+    match variant % 8 {
+        // name server without an address + MX warning
+        4 => base("@ IN NS ns\n@ IN MX 10 nomail\n"),
+        // CNAME and other data + MX warning
+        5 => base("@ IN NS ns\nns IN A 127.0.0.1\nclash IN CNAME www\nclash IN TXT \"x\"\nwww IN MX 5 nomail\n"),
+        // missing glue + NS at a wildcard
+        6 => base("@ IN NS ns\nns IN A 127.0.0.1\nsub IN NS ns.sub\n*.wild IN NS ns\n"),
+        // duplicate CNAME + warnings of both kinds
+        7 => base("@ IN NS ns\nns IN A 127.0.0.1\ntwo IN CNAME www\ntwo IN CNAME ns\n*.wild IN NS ns\n@ IN MX 10 nomail\n"),
         // no SOA
         0 => format!("$ORIGIN {zone}\n$TTL 60\n@ IN NS ns\nns IN A 127.0.0.1\n@ IN TXT \"z={zone} v={version}\"\n"),
         // CNAME and other data
